@@ -716,6 +716,95 @@ def check_histories(ctx, drv, case, prev):
     return ok
 
 
+SCALE_LEFTS = [Fr(0), Fr(1), Fr(-2)]
+SCALE_EXPONENTS = [3, 10, 20, 24, 27, 28, 30, 33, 40]
+
+
+def run_scale(ctx, drv, sc):
+    """the tree `rel`/`levels` placed on [left, left + 2^-e]: container sizes / support sequences exact, weights relative
+    to the interval length, sum and (centred) linear exactness relative to the interval length"""
+    left, e = Fr(sc["left"]), int(sc["exponent"])
+    H = Fr(1, 2 ** e)
+    rel = [Fr(x) for x in sc["rel"]]
+    lv = [int(l) for l in sc["levels"]]
+    grid = [left + x * H for x in rel]
+    if any(Fr(float(x)) != x for x in grid) or any(Fr(float(x) + float(y)) != x + y for x, y in zip(grid, grid[1:])):
+        ctx.count("scale_not_representable")
+        return True
+    ok = True
+    for gname, sname, cname, fb in sc["configs"]:
+        gi, si, ci = dict(GROUPINGS)[gname], dict(SLICES)[sname], dict(CONTAINERS)[cname]
+        tags = {"grouping": gname, "slice": sname, "container": cname, "force_balanced": fb, "n_points": len(grid),
+                "exponent": e, "left": str(left), "scale": True}
+        sub = dict(sc, config=[gname, sname, cname, fb])
+        line = "%d %d %d %d %s %s" % (gi, si, ci, 1 if fb else 0, rats(grid), nats(lv))
+        status, obj = impl_grid(gname, sname, cname, fb, grid, lv)
+        m_w = drv.ask("wts " + line)
+        if status != "ok":
+            ok = False
+            if m_w != status:
+                ctx.corr_break("C11/scale-outcome", sub, {"impl": status, "model": m_w[:200]})
+            ctx.violation("exception", dict(tags, stage="set_grid", exc=status), sub,
+                          {"what": "set_grid raises on a valid refinement tree placed on a short interval"})
+            continue
+        i_state, m_state = impl_state(obj), drv.ask("state " + line)
+        if i_state != m_state:
+            ok = False
+            ctx.corr_break("C11/scale-state", sub, {"impl": i_state[:500], "model": m_state[:500]})
+        wst, w = impl_weights(obj)
+        if wst != "ok" or not m_w.startswith("ok "):
+            ok = False
+            if wst != m_w.split(" ")[0].replace("ok", "ok"):
+                ctx.corr_break("C11/scale-outcome", sub, {"impl": wst, "model": m_w[:200]})
+            if wst != "ok":
+                ctx.violation("exception", dict(tags, stage="get_weights", exc=wst), sub, {})
+            continue
+        mw = parse_vec(m_w[3:])
+        hf = float(H)
+        if len(mw) != len(w) or any(abs(x - float(y)) > 1e-12 * max(hf, abs(float(y))) for x, y in zip(w, mw)):
+            ok = False
+            ctx.corr_break("C11/scale-weights", sub, {"impl/H": str([x / hf for x in w])[:400],
+                                                      "model/H": str([float(y / H) for y in mw])[:400]})
+        eg = [Fr(x) for x in obj.get_grid()]
+        bad = []
+        if len(w) != len(eg):
+            bad.append("%d weights for %d points" % (len(w), len(eg)))
+        else:
+            s0 = sum(Fr(x) for x in w)
+            s1 = sum(Fr(x) * ((p - left) / H) for x, p in zip(w, eg))       # f(x) = (x - a) / (b - a), exact: H / 2
+            if abs(float((s0 - H) / H)) > TOL_ORACLE:
+                bad.append("sum / length = %r" % float(s0 / H))
+            if abs(float((s1 - H / 2) / H)) > TOL_ORACLE:
+                bad.append("integral of (x-a)/(b-a) / length = %r instead of 0.5" % float(s1 / H))
+        if bad:
+            ok = False
+            ctx.violation("weights-sum-linear", dict(tags, max_container=max(len(c.slices) for c in obj.slice_containers)),
+                          sub, {"failed": bad, "containers": [len(c.slices) for c in obj.slice_containers],
+                                "weights/H": str([x / hf for x in w])[:300]})
+    ctx.count("scale_checked")
+    ctx.count("scale_exp_%02d" % e)
+    return ok
+
+
+def check_scales(ctx, drv, case):
+    """interval-scale stream: the case's (adaptive) tree on [left, left + 2^-e], e up to 40, left in {0, 1, -2}"""
+    r = ctx.rng
+    grid = [Fr(x) for x in case["grid"]]
+    lv = [int(l) for l in case["levels"]]
+    if len(grid) < 3 or max(lv) > 8:
+        return True
+    rel = [(x - grid[0]) / (grid[-1] - grid[0]) for x in grid]
+    ok = True
+    for _ in range(2):
+        configs = [[g, sn, cn, False] for g in ("GROUPED", "GROUPED_OPTIMIZED") for sn, _ in SLICES for cn, _ in CONTAINERS]
+        configs.append(["UNIT", r.choice(SLICES)[0], r.choice(CONTAINERS)[0], False])
+        configs.append([r.choice(GROUPINGS)[0], r.choice(SLICES)[0], r.choice(CONTAINERS)[0], True])
+        sc = {"kind": "scale", "left": str(r.choice(SCALE_LEFTS)), "exponent": r.choice(SCALE_EXPONENTS),
+              "rel": [frac_str(x) for x in rel], "levels": lv, "configs": configs}
+        ok = run_scale(ctx, drv, sc) and ok
+    return ok
+
+
 def check_factories(ctx, drv, r, n):
     ex = E()
     ok = True
@@ -775,6 +864,7 @@ def run_case(ctx, drv, case, prev=None):
         ok = check_wrappers(ctx, case, prev) and ok
         ok = check_wrappers_nd(ctx, case, prev) and ok
         ok = check_histories(ctx, drv, case, prev) and ok
+        ok = check_scales(ctx, drv, case) and ok
     return ok
 
 
@@ -840,6 +930,16 @@ def run(ctx):
 def replay(ctx, rp):
     case = rp["case"]
     drv = ctx.driver("drv_c11")
+    if case.get("kind") == "scale":
+        ok = run_scale(ctx, drv, dict(case, configs=[case["config"]] if "config" in case else case["configs"]))
+        print("replay: %s" % ("property holds and model agrees on this case" if ok else "REPRODUCED"))
+        for v in ctx.violations[:4]:
+            print("  violation:", v["probe"], v["tags"], v["detail"])
+        for c in ctx.corr_breaks[:4]:
+            print("  disagreement:", c["observable"], c["detail"])
+        for d in ctx._drivers:
+            d.close()
+        return 0 if ok else 1
     if case.get("kind") == "history":
         ok = run_history(ctx, drv, case)
         print("replay: %s" % ("property holds and model agrees on this history" if ok else "REPRODUCED"))
